@@ -409,15 +409,21 @@ def _walk(ops):
 
 
 def _has_trimmed_window_extend(ops) -> bool:
-    """ExtendNode <- Drop/SelectColumnsNode <- windowed ExtendNode, the trim removing a partition / order column"""
+    """ExtendNode (or the id-column extend that concat_rows puts on each operand) <- Drop/SelectColumnsNode <- windowed
+    ExtendNode, the trim removing a partition / order column"""
     for n in _walk(ops):
-        if type(n).__name__ == "ExtendNode" and type(n.sources[0]).__name__ in ("DropColumnsNode", "SelectColumnsNode"):
-            trim = n.sources[0]
-            below = trim.sources[0]
-            if type(below).__name__ == "ExtendNode" and below.windowed_situation:
-                wcols = set(below.partition_by) | set(below.order_by)
-                if wcols - set(trim.column_names):
-                    return True
+        tops = []
+        if type(n).__name__ == "ExtendNode":
+            tops = [n.sources[0]]
+        elif type(n).__name__ == "ConcatRowsNode" and n.id_column is not None:
+            tops = list(n.sources)
+        for trim in tops:
+            if type(trim).__name__ in ("DropColumnsNode", "SelectColumnsNode"):
+                below = trim.sources[0]
+                if type(below).__name__ == "ExtendNode" and below.windowed_situation:
+                    wcols = set(below.partition_by) | set(below.order_by)
+                    if wcols - set(trim.column_names):
+                        return True
     return False
 
 
